@@ -1,27 +1,40 @@
 #!/usr/bin/env bash
-# tools/confirm_seed_wt.sh <worktree> <seed-id> — confirm a sub-agent's seeded defect that was delivered as
-# <worktree>/patch.diff + <worktree>/tests/seeded_demo.rs (round 7 layout):
-#  (1) the existing suite passes with the change (demo moved aside), (2) the demo fails with it,
-#  (3) the demo passes without it. Stores patch + demo under /verif/seeded/<seed-id>/ and prints the three results.
+# tools/confirm_seed_wt.sh <worktree> <seed-id> — confirm a sub-agent's seeded defect delivered in its scratch
+# worktree as <worktree>/patch.diff plus either tests/seeded_demo.rs (integration demo) or demo.diff (in-crate
+# test whose name contains `seeded_demo`):
+#  (1) the existing suite passes with the change (demo moved aside / demo.diff reversed), (2) the demo fails
+#  with it, (3) the demo passes without it. Stores patch + demo under /verif/seeded/<seed-id>/ with the three
+#  result lines in .confirm.json (read by whoever writes meta.json).
 set -u
 W="$1"; ID="$2"; OUT=/verif/seeded/$ID
 [ -f "$W/patch.diff" ] || { echo "no patch.diff in $W"; exit 3; }
 cd "$W" || exit 3
 DEMO=$(ls tests/seeded_demo*.rs crates/*/tests/seeded_demo*.rs 2>/dev/null | head -1)
-[ -n "$DEMO" ] || { echo "no demo test in $W"; exit 3; }
-case "$DEMO" in
-  crates/*) PKG=$(echo "$DEMO" | cut -d/ -f2); RUN="cargo test --offline -p $PKG --test $(basename "$DEMO" .rs)";;
-  *) RUN="cargo test --offline --test $(basename "$DEMO" .rs)";;
-esac
+INCRATE=0
+if [ -z "$DEMO" ]; then
+  [ -f demo.diff ] || { echo "no demo test and no demo.diff in $W"; exit 3; }
+  INCRATE=1
+  PKGFLAG=""; grep -q '^+++ b/crates/' demo.diff && PKGFLAG="-p $(grep -m1 '^+++ b/crates/' demo.diff | cut -d/ -f3)"
+  RUN="cargo test --offline $PKGFLAG --lib seeded_demo"
+else
+  case "$DEMO" in
+    crates/*) RUN="cargo test --offline -p $(echo "$DEMO" | cut -d/ -f2) --test $(basename "$DEMO" .rs)";;
+    *) RUN="cargo test --offline --test $(basename "$DEMO" .rs)";;
+  esac
+fi
 git apply --check -R patch.diff 2>/dev/null || git apply patch.diff || { echo "patch does not apply"; exit 4; }
-mkdir -p "$W/.aside"; mv "$DEMO" "$W/.aside/"
+# (1) suite with the change, without the demo
+if [ $INCRATE = 1 ]; then git apply --check -R demo.diff 2>/dev/null && git apply -R demo.diff
+else mkdir -p "$W/.aside"; mv "$DEMO" "$W/.aside/"; fi
 suite=$(cargo nextest run --workspace --no-fail-fast --offline --test-threads 8 2>&1 | grep -E "Summary|tests run" | tail -1)
-mv "$W/.aside/$(basename "$DEMO")" "$DEMO"; rmdir "$W/.aside"
+if [ $INCRATE = 1 ]; then git apply demo.diff || { echo "demo.diff does not apply on top of the patch"; exit 4; }
+else mv "$W/.aside/$(basename "$DEMO")" "$DEMO"; rmdir "$W/.aside"; fi
 echo "suite with change: $suite"
-with=$($RUN 2>&1 | grep -E "^test result" | tail -1); echo "demo with change: $with"
-git apply -R patch.diff
-without=$($RUN 2>&1 | grep -E "^test result" | tail -1); echo "demo without change: $without"
+with=$($RUN 2>&1 | grep -E "^test result" | grep -v " 0 passed; 0 failed" | tail -1); echo "demo with change: $with"
+git apply -R patch.diff || { echo "cannot reverse patch.diff alone (overlaps demo.diff?)"; exit 4; }
+without=$($RUN 2>&1 | grep -E "^test result" | grep -v " 0 passed; 0 failed" | tail -1); echo "demo without change: $without"
 git apply patch.diff
-mkdir -p "$OUT/demo"; cp patch.diff "$OUT/patch.diff"; cp "$DEMO" "$OUT/demo/"
-echo "run from the repository root with the demo placed at $DEMO: $RUN" > "$OUT/demo/RUN.md"
+mkdir -p "$OUT/demo"; cp patch.diff "$OUT/patch.diff"
+if [ $INCRATE = 1 ]; then cp demo.diff "$OUT/demo/demo.diff"; echo "in-crate demo: git apply demo.diff, then: $RUN" > "$OUT/demo/RUN.md"
+else cp "$DEMO" "$OUT/demo/"; echo "run from the repository root with the demo placed at $DEMO: $RUN" > "$OUT/demo/RUN.md"; fi
 printf '{"suite_with_change": "%s", "demo_with_change": "%s", "demo_without_change": "%s", "demo_cmd": "%s"}\n' "$suite" "$with" "$without" "$RUN" > "$OUT/.confirm.json"
